@@ -198,7 +198,7 @@ func lastCommitOf(nd *Node) *types.Commit {
 
 // InvalidKinds are the single-field mutations that make an otherwise valid block violate one of the validity rules
 // the property lists (height, parent id, LastCommit, app hash, validator hashes, median time).
-var InvalidKinds = []string{"Height", "LastBlockID", "AppHash", "ValidatorsHash", "NextValidatorsHash", "Time", "LastCommit.dropbelow23", "LastCommit.badsig", "Proposer.unknown"}
+var InvalidKinds = []string{"Height", "LastBlockID", "AppHash", "ValidatorsHash", "NextValidatorsHash", "Time", "LastCommit.dropbelow23", "LastCommit.badsig", "Proposer.unknown", "LastCommit.onesigner", "LastCommit.misaligned"}
 
 // MakeCand builds a block for node `via`'s current height through that node's own CreateProposalBlock, with
 // the given proposer address and (for heights > initial) `drop` trailing non-absent commit signatures removed as long
@@ -279,6 +279,47 @@ func (s *Sim) MakeCand(via int, proposerGenesisIdx int, drop int, invalid string
 			if !ok {
 				return nil
 			}
+			h.LastCommitHash = common.Hash{}
+		case "LastCommit.onesigner":
+			// one validator's genuine precommit copied into every slot, under that validator's address; block time = that
+			// precommit's time, which is the median of this commit however it is weighted
+			var first *types.CommitSig
+			for i := range lc.Signatures {
+				if lc.Signatures[i].ForBlock() {
+					c := lc.Signatures[i]
+					first = &c
+					break
+				}
+			}
+			if first == nil || len(lc.Signatures) < 2 {
+				return nil
+			}
+			sigs := make([]types.CommitSig, len(lc.Signatures))
+			for i := range sigs {
+				sigs[i] = *first
+				sigs[i].Signature = common.CopyBytes(first.Signature)
+			}
+			lc = types.NewCommit(lc.Height, lc.Round, lc.BlockID, sigs)
+			h.Time = first.Timestamp
+			h.LastCommitHash = common.Hash{}
+		case "LastCommit.misaligned":
+			// genuine signatures, each with its signer's address, moved one slot on
+			n := len(lc.Signatures)
+			if n < 2 {
+				return nil
+			}
+			sigs := make([]types.CommitSig, n)
+			changed := false
+			for i := range sigs {
+				sigs[(i+1)%n] = lc.Signatures[i]
+				if lc.Signatures[i].ValidatorAddress != lc.Signatures[(i+1)%n].ValidatorAddress {
+					changed = true
+				}
+			}
+			if !changed {
+				return nil
+			}
+			lc = types.NewCommit(lc.Height, lc.Round, lc.BlockID, sigs)
 			h.LastCommitHash = common.Hash{}
 		case "Proposer.unknown":
 			h.ProposerAddress = common.BytesToAddress([]byte("nobody"))
